@@ -27,6 +27,46 @@ CHECKS = {
          "All shapes with 1..5 axes and lengths 1..4 (thorough 1..5) are enumerated completely: every index, every (axis, position) view, every out-of-range request, len() before and after every call, several calls past the first None; plus random call histories (next/len/size_hint/clone) on all four iterator types. Exhaustive inside the bound, sampled beyond it.",
          "Trusted: the harness's odometer as definition of row-major order; catch_unwind to observe panics.", "DESIGN.md §3 C19"),
 }
+
+CHECKS.update({
+ "C01": ("exploration", "proptest over structured call sets x sample maps x containers against a reference model of create",
+         "Generated call sets (phasing, missing, multiallelic, monomorphic, symbolic ALT, extra fields, records without GT, non-diploid genotypes in unselected samples; forced record classes) x maps (1..4 populations, subsets, inline/file/none) x {vcf, bgzf-vcf, bgzf-bcf, raw bcf written by the harness's own encoders}: exact equality of shape and every cell with a reference model written from the statement, and integer printing.",
+         "Trusted: the reference model (naive, on the structured call set), the harness's VCF/BCF/BGZF renderers (cross-checked against noodles/flate2 in selftest).", "DESIGN.md §3 C01"),
+ "C02": ("exploration", "proptest with boundary-weighted projection targets against the reference model + independent hypergeometric oracle; large-cohort class; -p vs --project-shape metamorphic",
+         "Targets anchored on records' called totals (exactly sufficient / one pair short), 0, full size, random; precision 0..12; cohorts of 150..700 samples; inadmissible targets must fail cleanly.",
+         "Trusted: reference model + hypergeometric oracle; printed-value tolerance stated in the evidence.", "DESIGN.md §3 C02"),
+ "C06": ("exploration", "proptest: statistics recomputed literally from genotypes (pair enumeration, per-site frequencies, 3x3 tally) and from the papers' formulas; starvation guard per statistic",
+         "Part A evaluates every statistic's definition directly on the haplotypes of the counted records and compares with `create | stat --precision 12`; Part B re-derives Watterson, pi, Tajima's D and Fu and Li's D for n up to 600. The run is inconclusive unless each of the 14 statistics was compared at least 100 times.",
+         "Trusted: the literal definitions cited in the evidence; tolerance 0.5e-12 + 1e-10(1+|x|), D scaled by its cancelling terms.", "DESIGN.md §3 C06"),
+ "C08": ("exploration", "exhaustive enumeration of the GT alphabet (942 strings x VCF/BCF x selected/unselected) + proptest embedding",
+         "Every GT string over {., 0, 1, 2, 3, 10} x {/, |} x ploidy 1..3 in both decoding paths, selected and unselected, against the statement's classification (count index, skip reason in the trace, error naming contig:position, no effect when unselected); random call sets embed all classes mid-stream.",
+         "Soundness decision for the bare '.' string (skip or clean failure both accepted). Exhaustive in the stated alphabet.", "DESIGN.md §3 C08"),
+ "C09": ("exploration", "proptest metamorphic relations (column permutation, list permutations, file vs inline) + reference model",
+         "Byte-identical stdout under sample-column permutation, label-order-preserving list permutation and --samples/--samples-file; axes transposed by the label permutation otherwise; absolute check against the model; ghost sample / empty list are errors.",
+         "Trusted: reference model; transposition done by the harness.", "DESIGN.md §3 C09"),
+ "C10": ("fault_enumeration", "proptest conservation invariant + fault placed at every record position",
+         "mass + skipped == records with X/Y parsed from stderr (exact without projection), strict mode names the first skippable record or equals the non-strict output; ploidy / truncated-column / bad-POS / bad-GT faults at every position 0..=N must give non-zero exit, a diagnostic and empty stdout.",
+         "Fault model: one fault per run; positions enumerated per generated call set.", "DESIGN.md §3 C10"),
+ "C11": ("exploration", "model-based histories: generated record sequences through the real site reader vs per-record fresh readers; split/permutation relations; CLI concat/permute",
+         "An in-memory genotype::Reader feeds the real site::Reader; each record's contribution inside a stream must equal its contribution read alone; every split point and a permutation; predecessor/successor class pairs are reported.",
+         "Per-record genotype classification is the harness's (C08 covers the VCF/BCF conversion).", "DESIGN.md §3 C11"),
+ "C12": ("exploration", "differential across containers x transports x thread counts x BGZF layouts x repetitions (byte-identical stdout)",
+         "Same call data rendered four ways with generated BGZF block layouts (incl. 64 KiB payloads, 1-byte blocks, empty blocks, no EOF marker), by path / stdin file / stdin pipe, threads from {1,2,3,4,8,16}, repeated executions: all stdout bytes and exit statuses equal.",
+         "Thread interleavings and hash seeds are sampled by repetition, not controlled.", "DESIGN.md §3 C12"),
+ "C13": ("exploration", "proptest over all 16 option subsets: combined invocation vs chained single-option invocations (byte identity) + absolute model",
+         "Combined `view` equals the documented chain byte for byte and the harness's model within tolerance; single-option semantics of mask and normalize; all 16 subsets must occur or the run is inconclusive.",
+         "Trusted: harness models of marginalize/project (validated in C03/C04).", "DESIGN.md §3 C13"),
+ "C14": ("exploration", "proptest metamorphic relations between statistic evaluations (fold, monomorphic cells, transpose, scaling, f2 decompositions)",
+         "Library and CLI relations listed in the statement, on spectra with unequal axes; undefined (non-finite) statistics are not compared.",
+         "Tolerance 1e-11 relative (x10 for ratios).", "DESIGN.md §3 C14"),
+ "C17": ("exploration", "grid enumeration + mutation-based generators over 7 families; panic-signature oracle; (thorough) libFuzzer targets",
+         "Full statistic x shape grid, option values at and beyond bounds, contradictory sample lists, absurd declared shapes, all tiny inputs and prefixes, mutated spectrum and call-set bytes in all containers: exit 0 or diagnosed failure, never a panic/abort. Known dependency panics are excluded by exact signature and counted.",
+         "Dev-profile binary (overflow checks on); child address space capped at 512 MiB (allocation failures under the cap are counted, not violations).", "DESIGN.md §3 C17"),
+ "C18": ("fault_enumeration", "harness-owned BufRead/Write with enumerated first-chunk lengths and a fault injected at every offset; real pipes with paced first chunk",
+         "First chunk length 1..min(len,300) enumerated for npy files and for call sets in all four containers (through the verif hook), later chunks generated; read fault at every npy offset and every call-set offset < 300 (+ sampled), write fault at every offset; result must equal the one-slice result / be an error.",
+         "The harness owns chunking and fault offset; BGZF worker threads are not scheduled.", "DESIGN.md §3 C18"),
+})
+
 NOT_YET = {}
 
 def main():
